@@ -27,7 +27,7 @@ ASSUMPTIONS = [
     "parent map derived from the expanded spec (pbt/trees.py positions)",
     "foreign twins are created while all members are registered, so their ids differ (the property's premise)",
 ]
-FLOORS = {"trees:NONTRIVIAL": 0.2, "trees:twins": 0.3}
+FLOORS = {"trees:NONTRIVIAL": 0.15, "trees:twins": 0.3}
 
 XSTEP = re.compile(r"/@([A-Za-z_][A-Za-z_0-9]*)\[(\d+)\]([A-Za-z_][A-Za-z_0-9]*)")
 
@@ -208,6 +208,25 @@ def check_tree(data: dict, lab: Labels) -> None:
                        "get_depth-relative-foreign", type(f).__name__)
     # members are still all in the tree after foreign twins exist
     absolute_pass("final")
+    # a successor of the root: the root is given up and built again from the same arguments (it gets
+    # the same id); the successor's tree is the successor's, whatever trees of the old root still exist
+    import dataclasses as _dc
+
+    kept_old = [root.to_tree(), tree]
+    kw = {f.name: getattr(root, f.name) for f in _dc.fields(root) if f.init and f.name not in ("id", "content_id")}
+    if nodes and root.detach_self():
+        r2 = type(root)(**kw)
+        if r2 is not root and r2.id == root.id:
+            lab.tag("successor-root-same-id")
+            for t2 in (r2.to_tree(), Tree(r2)):
+                require(t2.is_root(r2) is True and t2.get_parent(r2) is None and t2.get_depth(r2) == 0,
+                        "successor-root-tree", "root queries")
+                for c, fn, i in T.live_children(r2):
+                    gp, gf, gi = t2.get_parent_info(c)
+                    require(gp is r2 and gf.name == fn and gi == i and t2.get_depth(c) == 1,
+                            "successor-root-tree", f"child {fn}[{i}] reports another parent object")
+                    require(list(t2.get_ancestors(c))[-1] is r2, "successor-root-tree", "ancestors end in the old root")
+        del kept_old
 
 
 def st_case(ctx: Ctx):
@@ -223,4 +242,62 @@ def st_case(ctx: Ctx):
     )
 
 
-PARTS = [Part("trees", check_tree, strategy=st_case, quick=1600, thorough=64000)]
+def enum_deep(ctx: Ctx):
+    for shape in ("one", "items", "child", "mixed"):
+        for factor in ((2, 4) if ctx.thorough else (2,)):
+            for via in ("Tree", "to_tree"):
+                yield {"shape": shape, "factor": factor, "via": via}
+
+
+def check_deep(data: dict, lab: Labels) -> None:
+    """a chain far deeper than the recursion limit: the upward queries agree with the chain"""
+    from pyoak.tree import Tree
+
+    from pbt import origins as og
+
+    depth = T.deep_depth(data["factor"])
+    nodes = T.build_chain(depth, data["shape"], og.make_sources())
+    pos = {id(c): (p, fn, i) for c, p, fn, i in T.chain_positions(nodes)}
+    root = nodes[0]
+    tree = Tree(root) if data["via"] == "Tree" else root.to_tree()
+    lab.tag("deep-chain")
+    lab.sample_class = "deep"
+    n_all = len(nodes)
+    picks = sorted({0, 1, 2, n_all // 2, n_all - 2, n_all - 1, sys_limit() - 1, sys_limit(), sys_limit() + 1})
+    for k in picks:
+        n = nodes[k]
+        require(tree.is_in_tree(n) is True, "is_in_tree-member", k)
+        require(tree.is_root(n) is (k == 0), "is_root", k)
+        if k == 0:
+            require(tree.get_parent(n) is None and tuple(tree.get_parent_info(n)) == (None, None, None), "get_parent-root", "")
+        else:
+            p, fn, i = pos[id(n)]
+            gp, gf, gi = tree.get_parent_info(n)
+            require(tree.get_parent(n) is p and gp is p and gf.name == fn and gi == i, "get_parent_info", f"level {k}")
+        anc = list(tree.get_ancestors(n))
+        require(len(anc) == k and all(a is e for a, e in zip(anc, reversed(nodes[:k]))), "get_ancestors", f"level {k}")
+        require(tree.get_depth(n) == k, "get_depth", f"level {k}: {tree.get_depth(n)}")
+        for j in sorted({0, k // 2, max(k - 1, 0)}):
+            if j < k:
+                require(tree.is_ancestor(n, nodes[j]) is True and tree.is_ancestor(nodes[j], n) is False, "is_ancestor", (k, j))
+                require(tree.get_depth(n, relative_to=nodes[j]) == k - j, "get_depth-relative", (k, j))
+        if k < n_all - 1:
+            _expect_raises(ValueError, lambda n=n: tree.get_depth(n, relative_to=nodes[-1]), "get_depth-relative-non-ancestor", k)
+    leaf = nodes[-1]
+    first_uni = next((a for a in reversed(nodes[:-1]) if type(a).__name__ == "Uni"), None)
+    require(tree.get_first_ancestor_of_type(leaf, M.cls("Uni")) is first_uni, "get_first_ancestor_of_type", "deep")
+    require(tree.get_first_ancestor_of_type(leaf, M.cls("LeafB")) is None, "get_first_ancestor_of_type", "deep none")
+    xs = {tree.get_xpath(nodes[k]) for k in picks}
+    require(len(xs) == len(picks), "get_xpath-shared", "deep")
+    lab.nontrivial = True
+
+
+def sys_limit() -> int:
+    import sys
+
+    return sys.getrecursionlimit()
+
+
+PARTS = [Part("trees", check_tree, strategy=st_case, quick=1600, thorough=64000),
+         Part("deep", check_deep, enumerate=enum_deep,
+              exhaustive_note="4 chain shapes x depth 2x (thorough: and 4x) the recursion limit x {Tree(root), root.to_tree()}")]
